@@ -105,18 +105,27 @@ func (c *udpScripted) NewSession(ctx context.Context) (zerocopy.UDPClientSession
 		return info, zerocopy.UDPClientSession{}, ctx.Err()
 	}
 	w.observeMid(k, c.id, "start")
+	began := time.Now()
 	time.Sleep(time.Duration(act.Lat))
 	w.observeMid(k, c.id, "dialed")
-	if !act.OK {
+	if !act.OK && !(w.realtime && act.Mode == 3) {
 		w.doneCh <- c.id
 		return info, zerocopy.UDPClientSession{}, errors.New("scripted session failure")
 	}
 	pu := &udpPassthrough{dest: responderAP, hr: c.headroom(), w: w}
+	if !act.OK {
+		pu.dest = blackholeAP // real-time engine: the query goes where nobody answers; only the probe's deadline ends it
+	}
 	return info, zerocopy.UDPClientSession{
 		MaxPacketSize: 1400,
 		Packer:        pu,
 		Unpacker:      pu,
 		Close: func() error {
+			if w.realtime {
+				w.mu.Lock()
+				w.durations = append(w.durations, probeDur{Round: k, Client: c.id, Ns: time.Since(began).Nanoseconds()})
+				w.mu.Unlock()
+			}
 			w.doneCh <- c.id
 			return nil
 		},
